@@ -52,28 +52,38 @@ pub(crate) fn vg() -> &'static mut VGhost {
     unsafe { &mut VG }
 }
 
+// NOTE: every scan over the (fixed-size) ghost tables is unrolled by macro: a loop would force a larger
+// #[kani::unwind], and the unwind bound also multiplies the cost of every drop-glue recursion in the code
+// under test.
+macro_rules! each_reg {
+    ($i:ident, $body:block) => {
+        { let $i = 0usize; $body }
+        { let $i = 1usize; $body }
+        { let $i = 2usize; $body }
+        { let $i = 3usize; $body }
+        { let $i = 4usize; $body }
+        { let $i = 5usize; $body }
+    };
+}
 /// is (ep, fd) in the interest list of ep; returns the registered data
 pub(crate) fn registered(ep: RawFd, fd: RawFd) -> Option<u64> {
     let g = vg();
-    let mut i = 0;
-    while i < NREG {
-        if g.reg_used[i] && g.reg_ep[i] == ep && g.reg_fd[i] == fd {
-            return Some(g.reg_data[i]);
+    let mut out = None;
+    each_reg!(i, {
+        if out.is_none() && g.reg_used[i] && g.reg_ep[i] == ep && g.reg_fd[i] == fd {
+            out = Some(g.reg_data[i]);
         }
-        i += 1;
-    }
-    None
+    });
+    out
 }
 pub(crate) fn registrations_of(fd: RawFd) -> usize {
     let g = vg();
     let mut n = 0;
-    let mut i = 0;
-    while i < NREG {
+    each_reg!(i, {
         if g.reg_used[i] && g.reg_fd[i] == fd {
             n += 1;
         }
-        i += 1;
-    }
+    });
     n
 }
 
@@ -83,18 +93,16 @@ pub(crate) fn registrations_of(fd: RawFd) -> usize {
 pub(crate) fn ghost_epoll_ctl(ep: &Epoll, op: ControlOperation, fd: RawFd, ev: EpollEvent) -> std::io::Result<()> {
     let g = vg();
     let epfd = ep.as_raw_fd();
-    let mut i = 0;
     let mut free = NREG;
     let mut found = NREG;
-    while i < NREG {
+    each_reg!(i, {
         if g.reg_used[i] && g.reg_ep[i] == epfd && g.reg_fd[i] == fd {
             found = i;
         }
         if !g.reg_used[i] && free == NREG {
             free = i;
         }
-        i += 1;
-    }
+    });
     match op {
         ControlOperation::Add => {
             if found == NREG {
@@ -149,13 +157,11 @@ pub(crate) fn ghost_fd_closed(fd: RawFd) {
         }
         g.closed[k] = true;
     }
-    let mut i = 0;
-    while i < NREG {
+    each_reg!(i, {
         if g.reg_used[i] && g.reg_fd[i] == fd {
             g.reg_used[i] = false;
         }
-        i += 1;
-    }
+    });
 }
 pub(crate) fn ghost_ownedfd_drop(fd: &mut std::os::fd::OwnedFd) {
     ghost_fd_closed(fd.as_raw_fd());
